@@ -209,6 +209,7 @@ func (w *XWorld) DeliverP2C(n *XNode, cid string, k int) (delivered []env.Packet
 		}
 		res := env.Recv(&c, w.CA.CApp.IBCKeeper, pk.P)
 		if res.Err != nil {
+			debugOnce("DeliverP2C", res.Err)
 			break
 		}
 		l.P2C.Packets = l.P2C.Packets[1:]
@@ -234,6 +235,7 @@ func (w *XWorld) DeliverC2P(n *XNode, cid string) (*env.Packet, *env.RecvResult)
 	p := n.P
 	res := env.Recv(&p, w.P.PApp.IBCKeeper, pk.P)
 	if res.Err != nil {
+		debugOnce("DeliverC2P", res.Err)
 		return nil, &res
 	}
 	l.C2P.Packets = l.C2P.Packets[1:]
@@ -287,3 +289,103 @@ func setDigest(m map[uint64]env.ValSet) string {
 }
 
 var _ = providertypes.ModuleName
+
+// Wait lets dt of wall-clock time pass on every chain: each chain ends its block and begins the
+// next one at now+dt (provider first, then consumers by id). With relay=true the light clients are
+// kept fresh across the gap (default environment: relayers submit client updates all along);
+// with relay=false nobody updates them, so a gap longer than a trusting period expires them.
+func (w *XWorld) Wait(n *XNode, dt time.Duration, relay bool) (pr env.BlockResult, crs map[string]env.BlockResult) {
+	target := n.now().Add(dt)
+	pk, ck := w.P.PApp.IBCKeeper, w.CA.CApp.IBCKeeper
+	n.touchP()
+	p := n.P
+	h := p.Height()
+	pr = p.NextBlock(target.Sub(p.Time()), nil)
+	n.P = p
+	w.capture(n, pr.EndEvents, true, "", h)
+	w.capture(n, pr.BeginEvents, true, "", h+1)
+	crs = map[string]env.BlockResult{}
+	for _, cid := range sortedKeys(n.C) {
+		n.touchC(cid)
+		c := n.C[cid]
+		ch := c.Height()
+		r := c.NextBlock(target.Sub(c.Time()), nil)
+		n.C[cid] = c
+		crs[cid] = r
+		w.capture(n, r.EndEvents, false, cid, ch)
+	}
+	if relay {
+		p = n.P
+		for _, cid := range env.SortedLinkIDs(n.L) {
+			if c, ok := n.C[cid]; ok {
+				env.ForceRefreshClient(&p, pk, n.L[cid].PClient, c.Height(), c.Time())
+				env.ForceRefreshClient(&c, ck, n.L[cid].CClient, p.Height(), p.Time())
+				n.C[cid] = c
+			}
+		}
+		n.P = p
+	}
+	return pr, crs
+}
+
+// AckC2P relays the oldest acknowledgement the provider wrote for a consumer packet.
+func (w *XWorld) AckC2P(n *XNode, cid string) (*env.Ack, error, string) {
+	l := n.L[cid]
+	if len(l.C2P.Acks) == 0 {
+		return nil, nil, ""
+	}
+	a := l.C2P.Acks[0]
+	if !w.relayable(a.WrittenAt, n.P.Height()) {
+		return nil, nil, ""
+	}
+	n.touchC(cid)
+	c := n.C[cid]
+	_, err, pan := env.AckPacket(&c, w.CA.CApp.IBCKeeper, a.P, a.Bytes)
+	if err != nil || pan != "" {
+		return &a, err, pan
+	}
+	l.C2P.Acks = l.C2P.Acks[1:]
+	n.C[cid], n.L[cid] = c, l
+	return &a, nil, ""
+}
+
+// AckP2C relays the oldest acknowledgement a consumer wrote for a provider packet.
+func (w *XWorld) AckP2C(n *XNode, cid string) (*env.Ack, error, string) {
+	l := n.L[cid]
+	if len(l.P2C.Acks) == 0 {
+		return nil, nil, ""
+	}
+	a := l.P2C.Acks[0]
+	n.touchP()
+	p := n.P
+	_, err, pan := env.AckPacket(&p, w.P.PApp.IBCKeeper, a.P, a.Bytes)
+	if err != nil || pan != "" {
+		return &a, err, pan
+	}
+	l.P2C.Acks = l.P2C.Acks[1:]
+	n.P, n.L[cid] = p, l
+	return &a, nil, ""
+}
+
+// TimeoutP2C times out the oldest undelivered provider packet (allowed once the consumer's clock has
+// passed the packet's timeout timestamp).
+func (w *XWorld) TimeoutP2C(n *XNode, cid string) (*env.Packet, error, string) {
+	l := n.L[cid]
+	if len(l.P2C.Packets) == 0 {
+		return nil, nil, ""
+	}
+	pk := l.P2C.Packets[0]
+	c, ok := n.C[cid]
+	if !ok || pk.P.TimeoutTimestamp == 0 || uint64(c.Time().UnixNano()) < pk.P.TimeoutTimestamp {
+		return nil, nil, ""
+	}
+	n.touchP()
+	p := n.P
+	_, err, pan := env.TimeoutPacket(&p, w.P.PApp.IBCKeeper, pk.P)
+	if err != nil || pan != "" {
+		return &pk, err, pan
+	}
+	l.P2C.Packets = l.P2C.Packets[1:]
+	n.P, n.L[cid] = p, l
+	return &pk, nil, ""
+}
